@@ -368,17 +368,17 @@ def build(prop_id: str, component: str, extract_file: str, need_props=True) -> B
         rules_v = COQ / "props" / f"{prop_id}rules.v"     # optional second file of the same property (compiled as a dependency)
         if rules_v.exists():
             br.obligations += re.findall(r"^\s*(?:Theorem|Lemma|Corollary)\s+(\w+)", strip_coq_comments(rules_v.read_text()), re.M)
-        # optional extension file props/<id>x.v: further theorems of the same property, built and
+        # optional extension files props/<id>x*.v: further theorems of the same property, built and
         # assumption-printed like the main file (kept apart so that the main file stays small)
-        ext_v = COQ / "props" / f"{prop_id}x.v"
-        ext_obl = []
-        if ext_v.exists():
-            ext_obl = re.findall(r"^\s*(?:Theorem|Lemma|Corollary)\s+(\w+)", strip_coq_comments(ext_v.read_text()), re.M)
+        ext_units = []        # (unit name, theorem names)
+        for ext_v in sorted((COQ / "props").glob(f"{prop_id}x*.v")):
+            ext_units.append((ext_v.stem, re.findall(r"^\s*(?:Theorem|Lemma|Corollary)\s+(\w+)", strip_coq_comments(ext_v.read_text()), re.M)))
         main_obl = list(br.obligations)
-        br.obligations += ext_obl
+        for _, names in ext_units:
+            br.obligations += names
         br.forbidden = forbidden_scan()
         if ok and need_props:
-            units = [(prop_id, main_obl)] + ([(prop_id + "x", ext_obl)] if ext_v.exists() else [])
+            units = [(prop_id, main_obl)] + ext_units
             targets = " ".join(f"props/{u}.vo" for u, _ in units)
             rc, out = sh(f"timeout 1500 make -j{NPROC} {targets} 2>&1 | tail -40", cwd=COQ, timeout=1600)
             rc2 = 0 if all((COQ / "props" / f"{u}.vo").exists() for u, _ in units) and "Error" not in out else 1
@@ -394,7 +394,7 @@ def build(prop_id: str, component: str, extract_file: str, need_props=True) -> B
                     )
                     br.log += out3
                     if rc3 == 0:
-                        br.assumptions.update(parse_assumptions(out3, names if u != prop_id else br.obligations[:len(br.obligations) - len(ext_obl)]))
+                        br.assumptions.update(parse_assumptions(out3, names))
                     else:
                         good = False
                     for ext in (".vo", ".glob", ".vok", ".vos"):
@@ -693,7 +693,7 @@ def main(prop, argv):
     if tier == "thorough" and br.ok_props:
         # independent re-check of the compiled property file and everything it depends on, with the axiom list
         with build_lock():
-            mods = [f"OJDProps.{prop.id}"] + ([f"OJDProps.{prop.id}x"] if (COQ / "props" / f"{prop.id}x.v").exists() else [])
+            mods = [f"OJDProps.{prop.id}"] + [f"OJDProps.{q.stem}" for q in sorted((COQ / "props").glob(f"{prop.id}x*.v"))]
             rc, out = sh(["timeout", "1700", "coqchk", "-silent", "-o", "-Q", "theories", "OJD", "-Q", "props", "OJDProps"] + mods, cwd=COQ, timeout=1800)
         coqchk = " ".join(out.split())[-1500:]
         if rc != 0:
